@@ -107,7 +107,7 @@ func c12Verdict(r *vReport, errs []*Error, rp map[string]any) {
 func TestVerifC12(t *testing.T) {
 	r := vNewReport("C12")
 	defer r.Write(t)
-	r.Extra["rule"] = "every non-exempt scalar value position of the 4 maximal seeds (its table key given by the documentation-derived schema) x 12 contexts + 5 special functions x 4 embeddings (bare, upper-cased, nested in &&, call argument), complete product; oracle = transcription of GitHub's context availability table; class = (table key, name, allowed?); non-trivial = not allowed"
+	r.Extra["rule"] = "every non-exempt scalar value position of the 4 maximal seeds (its table key given by the documentation-derived schema) x 12 contexts + 5 special functions x 4 embeddings (bare, upper-cased, nested in &&, call argument; for if: keys also without the ${{ }} marker), complete product; oracle = transcription of GitHub's context availability table; class = (table key, name, allowed?); non-trivial = not allowed"
 	r.Extra["assumptions"] = []string{"the availability table is the transcription frozen in lib_catalogue.go (appendix E)", "for the jobs context outside workflow_call outputs 'undefined variable' counts as the report"}
 	if raw := vReplayInput(); raw != nil {
 		var rp map[string]any
@@ -152,7 +152,14 @@ func TestVerifC12(t *testing.T) {
 				names = append(names, nm{n, true})
 			}
 			for _, n := range names {
-				for e, text := range c12Embeddings(n.name, n.isFunc) {
+				embs := c12Embeddings(n.name, n.isFunc)
+				if strings.HasSuffix(p.Path, ".if") {
+					// if: conditions may omit the ${{ }} marker
+					for _, t := range c12Embeddings(n.name, n.isFunc) {
+						embs = append(embs, strings.TrimSuffix(strings.TrimPrefix(t, "${{ "), " }}"))
+					}
+				}
+				for e, text := range embs {
 					idx++
 					if !r.Mine(idx) {
 						continue
